@@ -8,28 +8,54 @@ CONFIG = {
                 "the points in order with every block <= limit or the single-point error; unmarshalWrite total and sound, marshal/unmarshal round-trip; "
                 "crash theorems for cuts that leave a footer intact or complete (append, advance) and for head removal. The model is diffed against the "
                 "real queue on op sequences (Empty() and every segment field after every call), crash images of every stage and cut, appenders racing "
-                "Close, WriteShard batches around 10MB. Partial: cuts strictly inside an append/advance write are refuted (known findings).",
+                "Close, WriteShard batches around 10MB. Partial: cuts strictly inside an append/advance write are refuted (known findings). "
+                "CONSUMER (node_processor.go SendWrite/run/close(onlyIfEmpty), service.go WriteShard/RemoveNode/purgeInactiveProcessors/Open): an "
+                "executable model of the processor map on top of the queue model, SendWrite branch by branch (branch actions re-read from the Go AST "
+                "and parameterising the model), with oracles for DataNode (node/unknown/error), WriteShardBinary (ack/shard gone/retryable/permanent), "
+                "segment and queue ages, known nodes, and a concurrent WriteShard between Current and the next queue call. Theorem: for EVERY operation "
+                "sequence and oracle, per (node,shard) queue, the event ledger accepts: writer calls are always for the oldest pending block, a block "
+                "leaves the queue only by a non-retryable writer answer or by a drop of a prefix that names its documented reason (undecodable = "
+                "exactly the block unmarshalWrite rejects; oversized/corrupt record; segment older than max-age; node removed; unknown node with "
+                "aged data = whole queue), accepted = released ++ pending in order, sends are the accepted blocks in order with only immediate "
+                "repetitions; a retryable failure/unknown node/meta error removes nothing; CloseIfEmpty never closes a non-empty processor; the "
+                "purge pass removes a non-empty processor only for an unknown node with aged data; RemoveNode leaves other nodes alone; a young "
+                "head segment protects the queue from the age purge; the old shapes (EOF handled with Advance = race 499fabe, advance on retry, "
+                "advance before write, Truncate on unmarshal error) are refuted by checked witnesses. The service model is diffed against the "
+                "real hh.Service/NodeProcessor (fake shardWriter scripted by the oracle incl. a WriteShard while the write is in flight, fake "
+                "metaClient, mtimes by os.Chtimes, a real purgeInactiveProcessors pass) after EVERY op: writer calls with decoded points, rc, "
+                "Empty(), all segment fields, readable blocks, directories; the implementation's observations are judged by an executable FIFO "
+                "spec (DrainSpec.v) that does not look at the model.",
         "note": "Trusts Coq kernel, genconsts translator, harness and verif_export wrappers; OS file semantics (pread/pwrite/ftruncate/seek as modelled, "
-                "whole-file reads never short); NodeProcessor.SendWrite/run loop and the rate limiter are not modelled (only WriteShard's split and the "
-                "marshal layout); concurrency is modelled as atomic sections of queue.mu with the limiter count as an oracle.",
+                "whole-file reads never short); the rate limiter, retry back-off and timers of NodeProcessor.run are time only and not modelled (the retry "
+                "tick = SendWrite until an error, the purge tick = PurgeOlderThan); coordinator.ShardWriter (answers nil for a dropped shard: only the "
+                "`sgi == nil -> return nil` statement is re-read) and the network are an oracle; concurrency is modelled as atomic sections of queue.mu "
+                "with the limiter count as an oracle, plus one WriteShard between SendWrite's two queue calls; the executable judge of DrainSpec.v "
+                "is tied to the model by the differential run only (no Coq link theorem for it; the Coq theorems are about the model's event ledger).",
         "technique": "Coq proof (representation invariant + refinement of a FIFO spec, induction over op sequences) on a Gallina model of the segment "
                      "file format + differential correspondence against the real queue code, incl. simulated crash images",
     },
     "harness": "h_c04",
     "level": "proof",
-    "n": {"quick": 450, "thorough": 12000},
+    "n": {"quick": 360, "thorough": 12000},
     "shard": 150,
-    "extra_proof_files": ["ProofsSplit", "ProofsSeg", "ProofsQueue", "ProofsLink", "ProofsCrash", "ProofsDrain"],
+    "extra_proof_files": ["ProofsSplit", "ProofsSeg", "ProofsQueue", "ProofsLink", "ProofsCrash", "ProofsDrain", "ProofsConsumer"],
     "bytes_keys": ["b"],
     "harness_timeout": {"quick": 600, "thorough": 3000},
     "rule": "designed cases (Empty() between Advance and the next read, buffered appends then Close and restart, age purge of the only segment, "
             "rollover at every distance -26..+26 from the segment limit, refused oversized appends leaving empty segments, torn append/advance at every "
-            "stage and cut, WriteShard batches around the 10MB limit, malformed unmarshal inputs) then seeded generation: op sequences of 8-40 calls "
+            "stage and cut, WriteShard batches around the 10MB limit, malformed unmarshal inputs; service: retryable x2 then success, both permanent "
+            "rejection texts and shard gone, undecodable block between two good ones (SendWrite and tick), io.EOF on the head segment with a following "
+            "segment, record larger than a shrunk segment limit (Truncate), removed node vs other node, unknown node + purge pass with young/aged data, "
+            "meta error, age purge of a non-head segment, WriteShard during a send + CloseIfEmpty + restart, queue size limit) then seeded generation: "
+            "service op sequences of 6-28 ops on 3 nodes x 2 shards (write, send under every oracle with 25% concurrent writes, tick with scripted "
+            "answers, raw/undecodable blocks, segment-limit changes, age purge, CloseIfEmpty, purge pass with random known nodes/aged queues, "
+            "RemoveNode, restart), 20% of the generated cases; op sequences of 8-40 calls "
             "(block sizes clustered around maxSegmentSize-8 +-24, buffered/unbuffered/blocked appends, size changes, purge with random ages, "
             "close/open/restart, small queue limits), crash images = every prefix of every durable write of a generated (state, Append|Advance) pair, "
             "k in {1,9,10,11,32} appenders racing Close, WriteShard batches, marshal/unmarshal inputs; after EVERY call the harness records the error "
             "class, Empty(), all in-memory segment fields incl. the OS cursor, and what a fresh reader of a copy of the directory gets; "
-            "distinct = distinct input; non-trivial = >=3 accepted appends/advances (seq), non-empty queue before the crash (crash), >=1 acked append (conc)",
+            "distinct = distinct input; non-trivial = >=3 accepted appends/advances (seq), non-empty queue before the crash (crash), >=1 acked append (conc), "
+            ">=2 writer calls (svc)",
     "trusted_base": [
         "C04: OS file semantics as modelled in Model.v (seek to a negative offset fails, read at/after EOF = io.EOF, short read = error, write at the "
         "cursor extends the file, ftruncate); fsync makes a completed write durable; a crash leaves a prefix of the one write in flight ([torn])",
@@ -39,15 +65,27 @@ CONFIG = {
         "C04: constants (defaultSegmentSize, footerSize, buffered threshold 10, last-writer bound 1) and two structural facts (Empty does not read the "
         "file cursor, segment.close flushes) are regenerated from services/hh/queue.go by genconsts on every run",
         "C04: concurrency = interleaving of the critical sections of queue.mu; len(limiter) at entry/exit of Append is an oracle (nb, na)",
+        "C04 consumer: oracles = answers of metaClient.DataNode and shardWriter.WriteShardBinary (the harness's fakes return them; 'shard gone' is "
+        "coordinator.ShardWriter answering nil without sending), segment/queue ages (the harness sets file mtimes with os.Chtimes to 2h-old/now around "
+        "a 1h limit); one WriteShard may run between SendWrite's queue.Current and its next queue call (both hold n.mu for reading) - on the send path "
+        "the fake writer performs it while the write is in flight; NodeProcessor.run's loop is replayed by the harness as `SendWrite until error` "
+        "(shape re-read: c04_run_loops_until_error); the purge pass is a real purgeInactiveProcessors goroutine started through verif_export with a "
+        "1ms tick, one full pass being recognised by the removal of an empty sentinel processor; structural facts of SendWrite/run/close/"
+        "purgeInactiveProcessors/RemoveNode/IsRetryable/ShardWriter.WriteShardBinary are regenerated by genconsts (section C04b)",
     ],
     "modelled": "services/hh/queue.go: queue.{Open,Close,Append,Current,Advance,advanceSegment,Truncate,SetMaxSegmentSize,PurgeOlderThan,Empty,trimHead,"
                 "addSegment,loadSegments,diskUsage} and segment.{open,append,flush,current,advance,truncate,close,empty} with file bytes, cursor, pos, "
-                "currentSize, size, maxSize, buf; node_processor.go: WriteShard split loop, marshalWrite/unmarshalWrite. NOT modelled: SendWrite/run loop, "
-                "Service (processor map, purgeInactiveProcessors), limiter.go rate limiter, LastModified/Position/Remove, I/O errors (ENOSPC, EIO)",
+                "currentSize, size, maxSize, buf; node_processor.go: WriteShard (split + Append), marshalWrite/unmarshalWrite, SendWrite (every branch), Active, the "
+                "retry and purge ticks of run, close(onlyIfEmpty)/CloseIfEmpty, Open, Purge; service.go: processor map, WriteShard (processor creation), "
+                "RemoveNode, one pass of purgeInactiveProcessors, Open (reload from directories) = restart. NOT modelled: limiter.go rate limiter, retry "
+                "back-off and timers, statistics, Diagnostics/Position, LastModified other than as the 'aged' oracle, Service.Close followed by reuse of "
+                "the same Service object, concurrency other than one WriteShard inside SendWrite, I/O errors (ENOSPC, EIO), coordinator.ShardWriter",
     "assumptions": ["blocks are non-empty (marshalWrite always emits >= 8 bytes: proved); an empty block would desynchronise segment.currentSize",
                     "segment size limits <= 2^62-8 so that no int64 offset arithmetic wraps",
                     "SetMaxSegmentSize / PurgeOlderThan / Truncate / restart-without-Close are not issued while acknowledged appends are still in the "
-                    "write buffer (buffered appends are by design not durable until the next flush)"],
+                    "write buffer (buffered appends are by design not durable until the next flush)",
+                    "consumer theorems: operation sequences with non-empty raw blocks and segment limits <= 2^62-8 (sop_ok); WriteShard calls of the "
+                    "service model are sequential (never >= 10 concurrent appenders), so nothing is buffered at a restart"],
 }
 
 
